@@ -12,7 +12,7 @@ def handleR (o : Op) : String :=
     | none => "bad-op"
     | some (mode, st0) =>
       let (rs, cr) := readAll mode n ⟨st0, UInt32.ofNat seq⟩ stream
-      s!"r={showRead rs};rseq={cr.seq.toNat}"
+      s!"r={showRead mode.isCbc rs};rseq={cr.seq.toNat};mut=-"
   | _, _, _, _, _, _ => "bad-op"
 
 end XC.C25
